@@ -87,6 +87,17 @@ def replay(ctx, name, cx, fin, patches, use_names):
                 MP.join_boundaries(itf['p1'], b1, itf['p2'], b2)
             else:
                 MP.join_boundaries(itf['p1'], b1, itf['p2'], b2, flip)
+            if len(hist) % 2 == 1 or use_names:
+                # finalize() is a query, not an end state: build incrementally -- number, look at the numbering
+                # (index maps, Dirichlet conditions), then declare the next interface
+                MP.finalize()
+                for p in range(cx['NP']):
+                    MP.patch_to_global_idx(p)
+                    MP.patch_to_global(p)
+                try:
+                    MP.compute_dirichlet_bcs([(0, (0, 0), lambda *X: 1.0 + 0 * X[0])])
+                except Exception:
+                    pass
         MP.finalize()
         gidx = np.concatenate([MP.patch_to_global_idx(p) for p in range(cx['NP'])])
         numdofs = int(MP.numdofs)
